@@ -580,6 +580,7 @@ def run(ctx):
         if pt:
             outs = sorted(set(M.norm_path(t["fn"].get("path", "")) for bi, t in M.iter_calls(pt) if any(M.op_place(x) is not None and refers_to(pt, M.op_place(x), 2) for x in t["args"])))
             ctx.ob(rule, rule + ":parse_template:errors-only", all(o.endswith("Writer::write_err") for o in outs) and outs, "parse_template_and_call_gen uses the writer through %s" % outs, fn=pt)
+    ctx.positive_control("R-C19-output-starts-empty", "open-options", lambda sub, fx: output_starts_empty(sub, [(fx, "fixture")]), ["open_for_output", "open_appending"])
     ctx.assumptions += [
         "property values are strings without newlines, numbers or booleans (the property's quantifier); nested values are rendered by serde_json's Display",
         "that the emitted text evaluates to PASS on the source template follows from these shapes only together with C01/C13 (== and IN semantics), which are decided separately",
